@@ -299,7 +299,7 @@ def one_history(acc, seed, tag, batch=None):
                     W.server_close(A)
                     run_actions([])
             elif ev == "restart":
-                run_actions([{"op": "restart", "who": A}])
+                run_actions([{"op": "restart", "who": A, "busy": r.random() < 0.25}])
                 acc.count("restarts")
                 nontriv = True
             elif ev == "peer-first-message":
